@@ -15,9 +15,9 @@ void ob_c04_diagonal(const mk_t<K,size_t,R>& shape_, const mk_t<K,size_t,R-1>& i
     const auto shape = shape_; const auto idx = idx_;
     for_<R>([&](auto I){ ASSUME((size_t)rd<I.value>(shape) >= 1); ASSUME((size_t)rd<I.value>(shape) < (1ul<<20)); });
     const int s1 = (int)rd<A1>(shape), s2 = (int)rd<A2>(shape);
-    if constexpr (SIGN < 0) { ASSUME(offset < 0); ASSUME(-offset < s1); }
+    if constexpr (SIGN < 0) { ASSUME(offset < 0); ASSUME(offset > -(1<<21)); ASSUME(s1 + offset > 0); /* i.e. -offset < s1, in the form the library computes */ }
     else if constexpr (SIGN == 0) ASSUME(offset == 0);
-    else { ASSUME(offset > 0); ASSUME(offset < s2); }
+    else { ASSUME(offset > 0); ASSUME(offset < (1<<21)); ASSUME(s2 - offset > 0); }
     const int l1 = SIGN < 0 ? s1 + offset : s1, l2 = SIGN > 0 ? s2 - offset : s2;
     const int dlen = l1 < l2 ? l1 : l2;
     auto s = ix::shape_diagonal(shape, offset, (size_t)A1, (size_t)A2);
@@ -55,3 +55,18 @@ DGK(2,0,1) DGK(2,1,0) DGK(3,0,1) DGK(3,1,2) DGK(3,0,2) DGK(3,2,0) DGK(4,1,3) DGK
 #ifdef VERIF_THOROUGH
 DGK(3,1,0) DGK(3,2,1) DGK(4,0,1) DGK(4,0,2) DGK(4,0,3) DGK(4,1,2) DGK(4,3,0) DGK(4,3,2)
 #endif
+
+// an offset at or beyond the extent selects nothing: the diagonal has length 0 (NumPy), the other extents are unchanged
+template <class K, size_t R, size_t A1, size_t A2, int SIGN>
+void ob_c04_diagonal_beyond(const mk_t<K,size_t,R>& shape_, int offset)
+{
+    const auto shape = shape_;
+    for_<R>([&](auto I){ ASSUME((size_t)rd<I.value>(shape) >= 1); ASSUME((size_t)rd<I.value>(shape) < (1ul<<20)); });
+    const int s1 = (int)rd<A1>(shape), s2 = (int)rd<A2>(shape);
+    ASSUME(offset > -(1<<21)); ASSUME(offset < (1<<21));
+    if constexpr (SIGN < 0) { ASSUME(offset < 0); ASSUME(s1 + offset <= 0); } else { ASSUME(offset > 0); ASSUME(s2 - offset <= 0); }
+    auto s = ix::shape_diagonal(shape, offset, (size_t)A1, (size_t)A2);
+    OBLIGE("C04.diagonal.shape.empty_beyond_the_extent|C02.diagonal.reported_length_fits_source", (size_t)nm::at(s,R-2) == 0, kid<K>, R, A1*4+A2, SIGN);
+}
+#define DGB(K,R,A1,A2) template void ob_c04_diagonal_beyond<K,R,A1,A2,-1>(const mk_t<K,size_t,R>&, int); template void ob_c04_diagonal_beyond<K,R,A1,A2,1>(const mk_t<K,size_t,R>&, int);
+DGB(k_std,2,0,1) DGB(k_std,2,1,0) DGB(k_std,3,0,2) DGB(k_utl,2,0,1) DGB(k_utl,3,1,2)
